@@ -34,7 +34,7 @@ def _make(pol):
         return SlidingWindowPolicy(window_size_seconds=0.3, max_requests=2)
     if pol == "fixed":
         return FixedWindowPolicy(requests_per_window=2, window_size=0.1)
-    return AdaptivePolicy(initial_rate=2.0, min_rate=1.0, max_rate=4.0, increase_step=1.0, decrease_factor=0.5, window_size=1.0)
+    return AdaptivePolicy(initial_rate=4.0, min_rate=1.0, max_rate=8.0, increase_step=2.0, decrease_factor=0.5, window_size=1.0)
 
 
 def kernels(sym, tier):
@@ -46,6 +46,7 @@ def kernels(sym, tier):
     k = 0
     admitted = []
     calls = []
+    fb_time = None
     for i in range(K):
         k = k + sym.choice(f"advance{i}", 4)                    # 0..3 table steps forward
         off = sym.choice(f"offset{i}", 3) - 1                   # -1, 0, +1 ns
@@ -54,7 +55,7 @@ def kernels(sym, tier):
             t = calls[-1] if calls else 0
         calls.append(t)
         now = Instant(t)
-        if pol == "adaptive" and i == 2:
+        if pol == "adaptive" and i == 1:
             fb = sym.choice(f"feedback{i}", 3)
             if fb == 1:
                 p.record_success(now)
@@ -62,6 +63,7 @@ def kernels(sym, tier):
                 p.record_failure(now)
             if not (p.min_rate <= p.current_rate <= p.max_rate):
                 r.bad("adaptive_rate_within_min_max", p.current_rate)
+            fb_time = t
         w = copy.deepcopy(p).time_until_available(now)
         if w.nanoseconds < 0:
             r.bad("time_until_available_non_negative", pol, t, w.nanoseconds)
@@ -105,6 +107,16 @@ def kernels(sym, tier):
                     r.bad("fixed_window_at_most_2n_in_any_window_length", admitted)
                 if admitted[i] // 100_000_000 == admitted[j] // 100_000_000 and cnt > 2:
                     r.bad("fixed_window_at_most_n_per_aligned_window", admitted)
+    if pol == "adaptive" and fb_time is not None:
+        # after the feedback the rate is constant: admissions at instants strictly after it obey the bucket bound of that rate
+        rate = p.current_rate
+        later = [a for a in admitted if a > fb_time]
+        for i in range(len(later)):
+            for j in range(i, len(later)):
+                if (j - i + 1) > rate * 1.0 + rate * (later[j] - later[i]) / 1e9 + 1e-6:
+                    r.bad("adaptive_bucket_bound_of_current_rate", {"rate": rate, "admitted_ns": admitted, "feedback_at_ns": fb_time})
+        if len(later) >= 2:
+            r.wit.add("adaptive_two_after_feedback")
     if n >= 2:
         r.wit.add("two_admitted")
     r.obs = {"policy": pol, "calls_ns": calls, "admitted_ns": admitted}
@@ -209,7 +221,7 @@ HARNESSES = [
       functions=["TokenBucketPolicy.try_acquire/time_until_available/_refill", "LeakyBucketPolicy.*", "SlidingWindowPolicy.*/_prune",
                  "FixedWindowPolicy.*/_get_window_start/_maybe_reset", "AdaptivePolicy.*/record_success/record_failure", "Instant/Duration arithmetic"],
       bounds=lambda tier: {"calls": 4 if tier == "quick" else 5, "instants": "k * step + {-1,0,+1} ns, k advancing by 0..3 per call",
-                           "step_ns": STEP_NS, "configurations": "token(cap 2, 2/s) leaky(2/s) sliding(0.3 s, 2) fixed(0.1 s, 2) adaptive(2/s in [1,4])"},
+                           "step_ns": STEP_NS, "configurations": "token(cap 2, 2/s) leaky(2/s) sliding(0.3 s, 2) fixed(0.1 s, 2) adaptive(4/s in [1,8], feedback before call 1)"},
       outside=["instants off the table", "other parameter values", "k > 5 calls"]),
     H(name="c10_entity", fn=entity, shape="S", budget=lambda tier: 900.0 if tier == "quick" else 3000.0,
       cubes=lambda tier: [{"policy": a, "queue_capacity_minus_1": b} for a in range(3) for b in range(2)],
